@@ -504,6 +504,8 @@ def conc_component(ctx, comp, specdir, mcmod, emit_cfg, gocmd, overlays, shim_fi
     ctx.cov["samples"] += ss["samples"][:1]
     judge(os.path.join(outd, "sample_hist.ndjson"), comp + "_sample", "sampled schedules", ss["histories"])
     # ---- E4: real goroutines, race detector
+    if ctx.violations:
+        return ws   # already decided on deterministic executions; a broken container may also hang real goroutines
     rbin = ctx.go_build(gocmd, name=gocmd + "_race", race=True)
     env = dict(GOENV, GORACE="halt_on_error=0 exitcode=66")
     try:
